@@ -684,6 +684,23 @@ pub fn c15b(ctx: &Ctx, r: &mut Report) {
             }
         }
     }
+    // SELECT * over a join of two / three relations that all carry the same column name, read through a derived
+    // table or a CTE by an outer query that uses the shared name unqualified (SQLite binds the FIRST of the
+    // duplicate columns of a sub-query; a name the library cannot tell apart must be refused, not bound to another)
+    for j in ["JOIN", "LEFT JOIN"] {
+        let froms = [
+            format!("users a {j} orders b ON a.id = b.user_id"),
+            format!("users a {j} orders b ON a.id = b.user_id {j} users c ON c.id = b.id"),
+            format!("orders a {j} users b ON a.user_id = b.id {j} orders c ON c.user_id = a.id"),
+            format!("users a {j} users b ON a.id < b.id {j} users c ON b.id < c.id"),
+        ];
+        for f in &froms {
+            for n in ["id", "age", "amount", "id + 1 AS x", "count(id) AS c"] {
+                qs.push((format!("SELECT {n} FROM (SELECT * FROM {f}) AS s"), vec!["users", "orders"]));
+                qs.push((format!("WITH s AS (SELECT * FROM {f}) SELECT {n} FROM s"), vec!["users", "orders"]));
+            }
+        }
+    }
     let e = new_engine(&world);
     // schema-qualified tables (main.users ...) and CTEs / aliases whose name is the last component of a qualified
     // table: the qualified reference must keep naming the table (SQLite: `main` is its own schema name)
@@ -751,7 +768,7 @@ pub fn c15b(ctx: &Ctx, r: &mut Report) {
         } else if sqlite.is_ok() {
             // both accept: results must agree on every small database
             if let Outcome::Ok(c) = &outcome {
-                for db in world.databases(&tables, 2) {
+                for db in world.databases(&tables, if sql.contains("(SELECT * FROM") { 3 } else { 2 }) {
                     fill(&e, &world, &db);
                     let (o, n) = (e.query(&sql), e.query(&c.rendered));
                     match (o, n) {
